@@ -12,7 +12,7 @@ import logging
 import contextlib
 
 from pybufrkit.errors import PyBufrKitError
-from pybufrkit.coder import Coder, CoderState
+from pybufrkit.coder import Coder, CoderState, BSRModifier
 from pybufrkit.tables import TableGroupKey, TableGroupCacheManager
 from pybufrkit.descriptors import Descriptor
 
@@ -469,9 +469,15 @@ def load_method_call_from_dict(method_type, table_group, d):
     else:
         args = tuple(d['args'])
 
+    state_properties = d.get('state_properties')
+    if state_properties and 'bsr_modifier' in state_properties:
+        # JSON turns the namedtuple into a plain list
+        state_properties = dict(state_properties)
+        state_properties['bsr_modifier'] = BSRModifier(*state_properties['bsr_modifier'])
+
     return method_type(method_name=d['method_name'],
                        args=args,
-                       state_properties=d.get('state_properties'))
+                       state_properties=state_properties)
 
 
 STATEMENT_LOAD_FUNCS = {
